@@ -190,6 +190,29 @@ class Ctx:
         self.traces += n
         return rej
 
+    def validate_execs(self, module, cfg, trace_path, env=None, workers=16, **kw):
+        """stateful trace validation: every line of trace_path is one execution (x = line number);
+        the trace module prints <<"DONE", x>> for a fully explained execution and
+        <<"REJECT", x, {clauses}, l>> for one that cannot be continued at event l.
+        Returns {x: (clauses, l)}; every execution must be accounted for."""
+        n = sum(1 for _ in open(trace_path))
+        if n == 0:
+            return {}
+        e = {"TRACE": trace_path}
+        e.update(env or {})
+        r = self.tlc(module, cfg, workers=workers, env=e, **kw)
+        if r.violated:
+            raise Broken("trace module %s reported %s\n%s" % (module, r.violated, r.out[-2000:]))
+        done = set(int(m.group(1)) for m in re.finditer(r'<<\s*"DONE",\s*(\d+)\s*>>', r.out))
+        rej = {}
+        for m in re.finditer(r'<<\s*"REJECT",\s*(\d+),\s*\{([^}]*)\}\s*,\s*(\d+)\s*>>', r.out, re.S):
+            rej[int(m.group(1))] = (sorted(x.strip().strip('"') for x in m.group(2).split(",") if x.strip()), int(m.group(3)))
+        missing = [x for x in range(1, n + 1) if x not in done and x not in rej]
+        if missing:
+            raise Broken("trace module %s accounted for %d of %d executions (first missing: %d)" % (module, n - len(missing), n, missing[0]))
+        self.traces += len(done)
+        return rej
+
     # ---------------------------------------------------------------- results
     def reject(self, sig, case, what):
         self.rejects.append(dict(sig=sig, case=case, what=what))
